@@ -172,13 +172,20 @@ def build_frame(t):
                 jpg = jpg[:2] + jpg[4 + int.from_bytes(jpg[4:6], 'big'):]
             if t.get('seed', 0) in (2, 3) and t['blob'] in ('bytes', 'bytearray'):
                 # the same frame made by Frame.from_blob (an upload): with the dimensions (lazy) or without them (decoded at once)
-                x = Frame.from_blob(blob_of(jpg, t['blob']), data, *((h, w) if kind != 'jpgdec' else (None, None)), fmt)
+                x = Frame.from_blob(blob_of(jpg, t['blob']), data, *((h, w) if kind not in ('jpgdec', 'decrw') else (None, None)), fmt)
             else:
                 x = Frame.from_jpg(blob_of(jpg, t['blob']), data, h, w, fmt)
-            if kind == 'jpgdec':
+            if kind in ('jpgdec', 'decrw'):
                 _ = x.image
             # what the frame's image is: the decoding of its jpg to the declared shape (reference decode, not the frame's own)
             info['px'] = decode_ref(jpg, ch == 1)
+            if kind == 'decrw':
+                # the application asks for a writable frame and draws on it: what it sends is the drawn picture
+                x = x.rw
+                img = x.image
+                if img.flags.writeable:
+                    img[...] = 255 - img
+                info['px'] = np.array(x.image, copy=True, order='C')
     # the encoding that already exists: the blob the frame was made from (ground truth, not what x.jpg says now),
     # or - for a frame that encoded itself earlier - what x.jpg returned
     existing = jpg if kind in ('jpgonly', 'jpgdec') else (bytes(x.jpg) if x.has_jpg else None)
@@ -186,6 +193,8 @@ def build_frame(t):
                 fmt=x.format, shape=x.shape, data=copy.deepcopy(x.data), is_rw=x.is_rw, jpg=existing)
     if kind in ('jpgonly', 'jpgdec'):
         info['has_jpg'] = True        # ground truth: the frame was made from a JPEG encoding, whatever it says of itself
+    if kind == 'decrw':
+        info['has_jpg'], info['jpg'] = False, None     # ground truth: no encoding of the drawn picture exists
     return x, info
 
 
@@ -708,7 +717,7 @@ def run(ctx):
     for mode in ('no_image', 'identical', 'jpg_bytes_identical', 'jpg_lossy'):
         if not counts['mode'].get(mode):
             raise MachineryError(f'vacuous run: no case of mode {mode} was executed')
-    for kind in ('none', 'rw', 'ro', 'jpgonly', 'jpgdec', 'rocached'):
+    for kind in ('none', 'rw', 'ro', 'jpgonly', 'jpgdec', 'rocached', 'decrw'):
         if not counts['kind'].get(kind):
             raise MachineryError(f'vacuous run: no frame of kind {kind} was executed')
     rep.extra['cases_per_branch'] = counts
